@@ -74,6 +74,7 @@ inline Plan Gen(uint64_t seed)
          const uint32_t q = wl.below(6);
          if (q < 2) p.push_back(sendPfx + (q ? "rmroute" : "rmroutefilters"));
          else if (q < 4) p.push_back(sendPfx + "routebare " + I(g.routeSeq++));   // a routed Message without any field (broadcast / default route)
+         else if (wl.oneIn(3)) p.push_back(sendPfx + "jettisontrees" + (wl.oneIn(2) ? std::string() : std::string(wl.oneIn(2) ? " *" : " t1")));   /* the subtree-download variant: nothing this workload queues is one of those results */
          else p.push_back(sendPfx + "jettison" + (wl.oneIn(2) ? std::string() : (" " + Esc(Keys(wl, hosts, false)))));   // a receiver cancels its queued GETDATA results: routed Messages queued for it are none of those
       }
       else if (k < 86) {const uint32_t how = wl.below(10); if (how < 6) p.push_back("close " + I(c)); else if (how < 9) p.push_back("cut " + I(c) + " " + U(wl.below(3000))); else p.push_back("reset " + I(c)); g.up[c] = false;}
